@@ -144,7 +144,9 @@ func families() []family {
 				return "WITH " + repf(n, ", ", func(i int) string { return "w" + strconv.Itoa(i) + " AS (SELECT 1)" }) + " SELECT c FROM w0"
 			}},
 		{name: "case-arms", doc: "CASE with n WHEN arms", bytesPer: 20,
-			gen: func(n int) string { return "SELECT CASE" + strings.Repeat(" WHEN a = 1 THEN 2", n) + " ELSE 3 END FROM t" }},
+			gen: func(n int) string {
+				return "SELECT CASE" + strings.Repeat(" WHEN a = 1 THEN 2", n) + " ELSE 3 END FROM t"
+			}},
 		{name: "order-by", doc: "ORDER BY n keys", bytesPer: 8,
 			gen: func(n int) string { return "SELECT c FROM t ORDER BY " + rep(n, "a DESC", ", ") }},
 		{name: "group-by", doc: "GROUP BY n keys", bytesPer: 3,
